@@ -36,9 +36,12 @@ def contains(d, s):
     # This function is used in string selectors.
     # todo: s can be a list, or a dict?
     # todo: should be rewritten through get_recursively or intersection
+    if s == "":
+        # an empty string means the context itself
+        # (as for get_recursively)
+        return True
     levels = s.split(".")
     if len(levels) < 2:
-        # todo: an empty string should return True.
         return s in d
     subdict = d
     for key in levels[:-1]:
